@@ -8,6 +8,7 @@ takes one and remembers that the other is still open.  ``explore`` re-runs the b
 open alternative is left (or a stated path budget is hit).
 """
 import math
+import os
 import time
 import traceback
 import z3
@@ -329,6 +330,12 @@ class Ctx:
         return False
 
 
+def soft_deadline_passed():
+    """True when the runner's soft deadline for this work item (epoch seconds in SYMX_SOFT_DEADLINE) has passed."""
+    d = os.environ.get("SYMX_SOFT_DEADLINE")
+    return bool(d) and time.time() > float(d)
+
+
 def explore(body, ctx, max_paths=2000, on_path=None):
     """Run `body(ctx)` once per feasible path. Returns the list of PathRecord."""
     global _current
@@ -355,6 +362,13 @@ def explore(body, ctx, max_paths=2000, on_path=None):
             if len(records) >= max_paths:
                 ctx.notes.append(f"path budget {max_paths} reached; remaining paths unexplored")
                 ctx.budget_hit = True
+                break
+            if soft_deadline_passed():
+                # the item's wall-clock budget is nearly used up: hand back what has been decided so far (a changed
+                # implementation can have many more paths; counterexamples of the explored ones must not be lost)
+                ctx.notes.append(f"soft deadline reached after {len(records)} paths; remaining paths unexplored")
+                ctx.budget_hit = True
+                ctx.deadline_hit = True
                 break
             if not ctx._backtrack():
                 break
